@@ -346,7 +346,21 @@ def case_bool(p):
     return out
 
 
-CASES = {"numeric": case_numeric, "garbage": case_garbage, "bool": case_bool}
+def case_sequence(p):
+    """Writes to several characteristics one after the other in one process (one build_update payload naming a float and an integer characteristic,
+    two accessories): every result is judged as if it were the only write ever made.  p: steps = [(fmt, lo, hi, st, kind, v), ...]"""
+    out = []
+    for i, (fmt, lo, hi, st, kind, v) in enumerate(p["steps"]):
+        res, _ = _run_seams(fmt, lo, hi, st, kind, v)
+        viol, _ = _judge_numeric(fmt, lo, hi, st, kind, v, res)
+        for sig, det in viol:
+            out.append((f"after-{i}-earlier-writes:" + sig, dict(det, earlier=[list(x) for x in p["steps"][:i]])))
+        if out:
+            break
+    return out
+
+
+CASES = {"numeric": case_numeric, "garbage": case_garbage, "bool": case_bool, "sequence": case_sequence}
 
 
 # ---------------------------------------------------------------- alphabets
@@ -548,6 +562,12 @@ def _work(item, seed, tier):
                      symbols=[f"format:{fmt}", "input:non-finite" if nf else "input:garbage", f"garbage-kind:{kind}"])
             for sig, detail in viol:
                 acc.violation(sig, "garbage", p, detail)
+    elif family == "sequence":
+        for p in item[1]:
+            viol = case_sequence(p)
+            acc.case(key=("seq", core.jsonable(p)), outcome=viol[0][0] if viol else "sequence:ok", sample={"case": "sequence", "params": p}, symbols=["family:sequence"])
+            for sig, detail in viol:
+                acc.violation(sig, "sequence", p, detail)
     elif family == "bool":
         for p in item[1]:
             viol = case_bool(p)
@@ -619,6 +639,18 @@ def run(ctx):
     # VERIF_SEED only shuffles the exploration order (which counterexample of a signature is met first)
     import random
 
+    # sequences of writes in one process: a float characteristic first, then an integer one with the same declared minimum and step and a
+    # numerically equal value (and the other way round, and three in a row)
+    seqs = []
+    big = [999999, 1000001, 1234567, 12345678, 2147483000, 4294967291, 1099511627680, 2**53 + 1]
+    for ifmt, lo, hi, st in (("uint32", 0, U32, 1), ("uint64", 0, U64, 1), ("uint64", 0, U64, 5), ("int", -100, I31 - 1, 5), ("uint32", 0, None, 1), ("int", None, None, 1)):
+        for v in big:
+            if hi is not None and v > hi:
+                continue
+            f = ("float", lo, hi, st, "int", v)
+            i_ = (ifmt, lo, hi, st, "int", v)
+            seqs += [{"steps": [f, i_]}, {"steps": [i_, f, i_]}, {"steps": [("float", lo, hi, st, "str", str(v)), (ifmt, lo, hi, st, "str", str(v))]}]
+    work += [("sequence", chunk) for chunk in _split(seqs, 40)]
     random.Random(ctx.seed).shuffle(work)
     ctx.pmap(_work, work)
     # (the DOCUMENTED phase ran first, so its inputs are the reported examples of the signatures they hit)
